@@ -72,6 +72,20 @@ CLAIMS.update({
                 note=RULE_NOTE + " shellquote.Split stays outside the model (checked per case).", technique="Coq refinement proof (token reading = declarative reading) + scanner soundness + correspondence", design="6 C14"),
 })
 
+PARSE_NOTE = ("Trusted: Coq kernel + VM; the hand-written model Model/Parser.v with Header.v, KV.v (kvRegex scanner), AVC.v, Trim.v, Hex.v (tied to auparse by the correspondence: the model's Data()/Tags() must equal the implementation's on every generated and spliced record, "
+              "its parsed header on every generated and damaged line); generated tables (record types, errno, arch, syscalls, signal names); Go's time and net packages as oracles for the expected timestamp and IPv6 text. No axioms.")
+CLAIMS.update({
+    "C04": dict(text="Proof: C04_header_roundtrip (every S < 2^34, mmm < 1000, N < 2^32, any text without '(' in front and ANY text behind the header parse back to exactly S, mmm, N and the rest), C04_type_roundtrip (all 65536 record types, UNKNOWN[n] included). "
+                     "The glue (trimming, split at the first msg=, time.Unix arithmetic, ToMapStr's well-known keys, ParseLogLine/Parse agreement, rejection of damaged headers) is modelled and decided on every generated line against the implementation.",
+                note=PARSE_NOTE + " PARTIAL: trimming / ToMapStr / rejection of malformed headers have no theorem; the checker decides them per line.", technique="Coq round-trip proof of the header codec + exhaustive type sweep + correspondence", design="6 C04"),
+    "C05": dict(text="Partial proof: C05_sockaddr_slices_in_range (every slice expression of parseSockaddr/hexToIP is inside the string, for every input), C05_hex_sound. The Gallina model of the whole Data() pipeline is total by construction and agrees with the implementation on every spliced record of every specially handled type; "
+                     "the run itself checks no panic (recover), no hang (5 s deadline) and equal results on repeated Data/Tags/ToMapStr calls.",
+                note=PARSE_NOTE + " PARTIAL: absence of panics in regexp, strconv, fmt, net and in the glue is observed on generated inputs, not proved; termination of RE2 is assumed.", technique="Coq proof of in-range slicing for the index-arithmetic anchors + total executable model + fuzzed correspondence", design="6 C05"),
+    "C12": dict(text="Proof: C12_hex_roundtrip (every byte string), C12_quoted_field_tokenised (every key, every double-quoted value without a double quote that does not end in a backslash, followed by any text, is tokenised as exactly that field). "
+                     "The remaining pipeline (trimming, placeholders, nested msg=, per-type decoding incl. IPv4/IPv6/unix socket addresses, derived fields) is modelled executable and decided per generated record: independent expectations from the generator, and model = implementation on the whole map. Known finding: a quote inside a nested msg='...' field.",
+                note=PARSE_NOTE + " PARTIAL: per-type enrichment and IPv6 text have no theorem.", technique="Coq proofs of the two kernel encodings + executable model of Data() + correspondence", design="6 C12"),
+})
+
 NOT_YET = {}
 
 def main():
